@@ -56,6 +56,12 @@ pub struct K18 {
     /// `RUST_LOG` of the client (None = unset)
     #[serde(default)]
     pub rust_log: Option<String>,
+    /// `TZ` of the client (None = UTC)
+    #[serde(default)]
+    pub tz: Option<String>,
+    /// radar runs with `--airports` naming a file with two airports in the far corners of the map
+    #[serde(default)]
+    pub airports: bool,
 }
 
 fn default_rx() -> (f64, f64) {
@@ -137,7 +143,7 @@ fn generate_two_lives(rng: &mut Rng) -> K18 {
         KEvent { at_us: 1_800_000, ev: key("F1") },
         KEvent { at_us: 2_000_000, ev: key("c:q") },
     ];
-    K18 { cols: 120, rows: 40, filter_time, locations: vec![("RX".to_string(), 0.0, 0.0)], flags: vec![], lines, events_a, events_b, bulk: 0, many: false, rx, gpsd_cli_offset: None, gpsd_move: None, rust_log: None }
+    K18 { cols: 120, rows: 40, filter_time, locations: vec![("RX".to_string(), 0.0, 0.0)], flags: vec![], lines, events_a, events_b, bulk: 0, many: false, rx, gpsd_cli_offset: None, gpsd_move: None, rust_log: None, tz: None, airports: false }
 }
 
 pub fn generate(rng: &mut Rng, fault_free: bool) -> K18 {
@@ -213,6 +219,8 @@ pub fn generate(rng: &mut Rng, fault_free: bool) -> K18 {
                     let (yz, xz) = wire::cpr_encode(rx.0 + dlat + far, rx.1 + dlon, odd);
                     wire::me_airborne_position(11, 0, 0, wire::ac12_q(5_000 + 2_000 * slot as i32), false, odd, yz, xz)
                 }
+                // (a helicopter in the hover now and then: exactly 0 kt on both axes)
+                _ if rng.chance(0.1) => wire::me_velocity(1, 0, wire::sub_ground_speed(rng.below(2) as u8, 1, rng.below(2) as u8, 1), 0, 0, 1 + rng.below(3) as u16, 0, 3),
                 _ => wire::me_velocity(1, 0, wire::sub_ground_speed(rng.below(2) as u8, 50 + rng.below(400) as u16, rng.below(2) as u8, 50 + rng.below(400) as u16), 0, 0, 1 + rng.below(60) as u16, 0, 3),
             };
             ctr += 1;
@@ -402,8 +410,10 @@ pub fn generate(rng: &mut Rng, fault_free: bool) -> K18 {
     push(&mut events_b, &mut t, key("c:q"), 0);
     let gpsd_cli_offset = if !fault_free && rng.chance(0.12) { Some(*rng.pick(&[(0.5, 0.0), (0.0, 1.0), (-0.7, 0.8), (1.0, -1.0), (0.0, -0.3), (0.01, 0.01)])) } else { None };
     let rust_log = if !fault_free && rng.chance(0.3) { Some((*rng.pick(&["trace", "debug", "info", "rsadsb_common=trace", "radar=trace,adsb_deku=debug", "warn", ""])).to_string()) } else { None };
+    let tz = if !fault_free && rng.chance(0.4) { Some((*rng.pick(&["EST5EDT", "PST8PDT", "<-03>3", "<+0530>-5:30", "JST-9", "America/New_York", "<-11>11", "<+13>-13", "UTC0"])).to_string()) } else { None };
+    let airports = !fault_free && !(many || excursion) && rng.chance(0.25);
     let gpsd_move = if gpsd_cli_offset.is_some() && rng.chance(0.4) && lines.windows(2).all(|w| w[0].0 != w[1].0) { Some(*rng.pick(&[(0.1, 0.2), (-0.2, 0.15), (0.05, -0.3), (-0.25, -0.1), (0.0, 0.3), (0.25, 0.0)])) } else { None };
-    K18 { cols, rows, filter_time, locations, flags, lines, events_a, events_b, bulk, many: many || excursion, rx, gpsd_cli_offset, gpsd_move, rust_log }
+    K18 { cols, rows, filter_time, locations, flags, lines, events_a, events_b, bulk, many: many || excursion, rx, gpsd_cli_offset, gpsd_move, rust_log, tz, airports }
 }
 
 const GPSD_LEAD_US: u64 = 300_000;
@@ -502,7 +512,7 @@ pub fn compile(sc: &K18) -> KChild {
     }
     // never coalesce: one segment (= one line) per read, so the processing time of every line is
     // the time of its RD entry in the seam log
-    KChild { file_ops: vec![], rust_log: sc.rust_log.clone(), gpsd, ev_delay_us: vec![], connects, events, proc_delay_us: vec![], coalesce: vec![false], step_budget: 40_000 + 4 * sc.bulk as u64 }
+    KChild { tz: sc.tz.clone(), file_ops: vec![], rust_log: sc.rust_log.clone(), gpsd, ev_delay_us: vec![], connects, events, proc_delay_us: vec![], coalesce: vec![false], step_budget: 40_000 + 4 * sc.bulk as u64 }
 }
 
 struct RefSnap {
@@ -607,6 +617,20 @@ pub fn execute(sc: &K18) -> Outcome {
     let mut args: Vec<String> = vec![format!("--lat={}", cli.0), format!("--long={}", cli.1), "--log-folder=logs".into(), format!("--filter-time={}", sc.filter_time)];
     if sc.gpsd_cli_offset.is_some() {
         args.push("--gpsd".into());
+    }
+    if sc.airports {
+        // two airports in the far south-east / south-west of the default view, clear of every
+        // constructed marker and aircraft
+        let f = sc.rx.0.to_radians().cos() / 35.0f64.to_radians().cos();
+        let path = super::pty::workdir().join("airports.csv");
+        let text = format!(
+            "\"icao\",\"iata\",\"name\",\"city\",\"subd\",\"country\",\"elevation\",\"lat\",\"lon\",\"tz\"\n\"KSE1\",\"SE1\",\"South East\",\"Town\",\"State\",\"US\",10.0,{:.4},{:.4},\"America/New_York\"\n\"KSW2\",\"SW2\",\"South West\",\"Town\",\"State\",\"US\",20.0,{:.4},{:.4},\"America/Chicago\"\n",
+            sc.rx.0 - 1.25 * f, sc.rx.1 + 1.5, sc.rx.0 - 1.4 * f, sc.rx.1 - 1.6
+        );
+        std::fs::write(&path, text).unwrap_or_else(|e| simcore::harness_error(&format!("cannot write {}: {e}", path.display())));
+        args.push("--airports".into());
+        args.push("airports.csv".into());
+        out.fault("airports_on_the_map");
     }
     args.extend(sc.flags.iter().cloned());
     if !sc.locations.is_empty() {
@@ -1006,6 +1030,9 @@ pub fn execute(sc: &K18) -> Outcome {
     if sc.rust_log.is_some() {
         out.fault("diagnostics_switched_on");
     }
+    if sc.tz.is_some() {
+        out.fault("local_time_zone_not_utc");
+    }
     if sc.events_b.len() > 8 {
         out.fault("view_control_sequence");
     }
@@ -1187,6 +1214,12 @@ pub fn shrink(sc: &K18) -> Vec<K18> {
     let mut c = vec![];
     if sc.rust_log.is_some() {
         c.push(K18 { rust_log: None, ..sc.clone() });
+    }
+    if sc.tz.is_some() {
+        c.push(K18 { tz: None, ..sc.clone() });
+    }
+    if sc.airports {
+        c.push(K18 { airports: false, ..sc.clone() });
     }
     if sc.gpsd_move.is_some() {
         c.push(K18 { gpsd_move: None, ..sc.clone() });
